@@ -13,7 +13,8 @@ THOROUGH_SEEDS = 3
 RULE = ("random objects of all eight kinds (MDP::Model, SparseModel, Experience, SparseExperience, MDP::Policy, "
         "POMDP::Model, POMDP::SparseModel, POMDP::Policy with horizon 0..4), dyadic and general (random 53-bit "
         "mantissa, incl. subnormal/huge) values; each object is written with the real operator<<, read back into a "
-        "destination pre-filled with different content, then every token-level truncation, a list of random "
+        "destination pre-filled with different content — once as written and once with the trailing whitespace stripped "
+        "(last number = last byte of the stream) —, then every token-level truncation (ending at a token's last character), a list of random "
         "single-token corruptions and (one case in four) every position x vocabulary corruption is loaded; "
         "non-trivial = the written text has more than two tokens")
 TRUSTED_BASE = [
